@@ -17,7 +17,7 @@
   watcher by design, and the dying worker drops its backlog).
 -/
 import Kopf.Lemmas.C01_Inv2
-import Kopf.Lemmas.C01_Ord
+import Kopf.Lemmas.C01_Pre
 import Kopf.Lemmas.C01_Term
 import Kopf.Lemmas.C01_Frame
 namespace Kopf.C01
